@@ -97,8 +97,12 @@ class Repo:
                 p = os.path.join(d, name)
                 with open(os.path.join(self.root, p), "w", encoding="utf8") as f:
                     f.write(self.new_nb() if name.endswith(".ipynb") else "text %d\n" % self.n)
-            elif c < 0.65:
+            elif c < 0.6:
                 self.edit(r.choice(files))
+            elif c < 0.65:
+                # mode-only change (chmod +x / -x): git reports the file as modified although its content is the same
+                full = os.path.join(self.root, r.choice(files))
+                os.chmod(full, os.stat(full).st_mode ^ 0o111)
             elif c < 0.78:
                 os.remove(os.path.join(self.root, r.choice(files)))
             else:
